@@ -47,6 +47,13 @@ partial def connDecomposes (reqs : List String) (c : String) : Bool :=
 
 def isPrefix (a b : List String) : Bool := a.length ≤ b.length && b.take a.length == a
 
+/-- can the delivered PDUs be written as: some first complete elements of what connection 1 delivered, then some first complete
+elements of what connection 2 delivered, …? (bytes never cross from one connection into the next) -/
+def perConn : List String → List (List String) → Bool
+  | pdus, [] => pdus.isEmpty
+  | pdus, c :: rest =>
+    (List.range (min pdus.length c.length + 1)).any fun k => c.take k == pdus.take k && perConn (pdus.drop k) rest
+
 def handle (inp out : String) : String :=
   match words inp with
   | ["tcp", opts, streamHex, steps] =>
@@ -65,9 +72,14 @@ def handle (inp out : String) : String :=
           (s', now, rcs ++ [rc], rb)
         | _ => acc) (init, 1000, [], [])
       let ms := s!"{if rcs.isEmpty then "-" else ",".intercalate (rcs.map toString)} {joinOr (s.conns.map toHex)} {joinOr (s.respQueue.map toHex)} {s.inBuf.length} {joinOr (s.reqs.map showReq)}"
+      -- the last word (rx:…) is for the oracle only
+      let rxTok := ((words out).find? (·.startsWith "rx:")).getD "rx:-"
+      let out0 := " ".intercalate ((words out).filter (fun w => !w.startsWith "rx:"))
+      let rxConns : List (List String) := if rxTok == "rx:-" then [] else
+        (((rxTok.drop 3).toString).splitOn "|").map fun h => (specSplit ((ofHex h).getD [])).map toHex
       -- oracle on the implementation's observable behaviour
       let spec : Option String :=
-        match words out with
+        match words out0 with
         | [_, conns, pdus, _, _] =>
           let implPdus := if pdus == "-" then [] else pdus.splitOn "|"
           -- (1) what reached the upper layer is a prefix of the complete PDUs in the stream, in order,
@@ -82,6 +94,7 @@ def handle (inp out : String) : String :=
           let rxChecked := rcs.all (· == 0) && s.conns.length ≤ 1
           if rxChecked && rxBad then some "delivered-bytes-that-are-not-a-PDU-of-the-stream"
           else if rxChecked && !(isPrefix implPdus want) then some "PDUs-delivered-differ-from-those-in-the-stream"
+          else if !(perConn implPdus rxConns) then some "PDUs-handed-up-are-not-the-complete-elements-each-connection-delivered-in-order"
           else if !(implConns.all fun c => c == "-" || connDecomposes reqHex c) then
             some "connection-does-not-carry-whole-requests-in-order-from-a-request-boundary"
           else none
@@ -89,7 +102,7 @@ def handle (inp out : String) : String :=
       let cls := s!"tcp:c{min s.conns.length 3}:p{min s.respQueue.length 5}:{if rcs.any (· != 0) then "closed" else "ok"}"
       match spec with
       | some why => s!"specfail {cls} {why}"
-      | none => if ms == out then s!"ok {cls}" else s!"diff {cls} model={ms}"
+      | none => if ms == out0 then s!"ok {cls}" else s!"diff {cls} model={ms}"
     | _, _ => "skip bad-tcp-args"
   | ["baddr", hostHex, port] =>
     -- the resolver is asked for exactly the configured host and the port in decimal
